@@ -76,6 +76,7 @@ CLAIMED = {
         "after every argument check, file lookup, parse, set-up and compute stage, and only the optional PDB/APBS writers follow it; non_trivial never sees the output path; the charge guard precedes naming and line generation; checks come first; "
         "charge_guard_spec (over Q, model run in Float against the real noninteger_charge): a total passes the guard exactly when it is within the tolerance of some integer; repair_gate_spec: is_repairable lets a structure through to repair exactly when something is missing and at most one tenth of the heavy atoms (model compared with the real function on counts around the limit, and with the decision observed in runs on peptides whose missing count straddles the limit). "
         "Oracle: fault injection into EVERY stage of that generated skeleton on the real code x {ValueError, RuntimeError} x output path {absent, pre-existing with sentinel content and mtime}; eleven natural failure triggers; "
+        "the request gate (Model/OptionGate.lean = check_files then check_options as main_driver calls them): gate_accepts_iff_usable - for EVERY request the gate lets through exactly the usable ones (every named file exists, a user force field comes with a names file, the built-in force field has its data file, 0 <= pH <= 14, neutral termini with PARSE only) - and its corollaries userff_without_usernames_refused, missing_file_refused, ph_outside_refused, neutral_termini_need_parse; tied EXHAUSTIVELY to the real functions on the 6 048-cell request grid (file options absent/existing/missing x seven --ff values incl. None, lower case and an unknown name x eight pH values incl. +-inf and NaN x the two neutral flags), compared by pass / exception class; refused requests end to end (every refusal in the text of the parser, check_files, check_options x --ff values x path states); "
         "hydrogen-free peptides under --assign-only and CA traces (totals that cannot be integral) must fail and leave the path alone or write an integral total; "
         "success side: C02's structure_total_integral / integral_total_passes_guard (every sequence of fully parameterised amino-acid states has an integral exact total and passes the guard) and, on real runs, side-chain-complete peptides with each residue type forced in turn x six force fields, and PARSE with --neutraln/--neutralc at each residue type (PEOEPB terminal gaps, PARSE neutral C-terminal PRO and the non-raising is_repairable are known findings).",
         note="the OS is not modelled (a crash inside write() leaves a partial file); success for ALL sequences is checked on the windows run, not proved by a kernel table",
@@ -118,7 +119,7 @@ CLAIMED = {
     "C07": dict(
         text="Lean theorems about a model of read_pdb + Biomolecule.__init__ + residue constructors + drop_water: no ATOM/HETATM line skipped whatever surrounds it, "
         "trailing-column cuts parse identically, grouping is a permutation of the first model's atoms for every placement of TER/END/MODEL/other records, "
-        "first altloc wins, drop_water removes exactly the waters. Full strength on the repaired tree (five fix: commits). Model tied to code by differential runs on generated PDB texts.",
+        "first altloc wins, drop_water removes exactly the waters; records without a chain identifier (round 4): one TER is enough for the chain pre-count (one_ter_is_enough), a blank non-water record is filed under the letter at position (number of TER records before it) of the 62-letter alphabet, a TER advances that position and nothing else (blank_record_chain_letter, ter_advances_letter), and two blank records taken in at different TER counts never share a chain (blank_records_separated). Full strength on the repaired tree (five fix: commits). Model tied to code by differential runs on generated PDB texts (incl. blank-chain TER layouts: one TER and none at the end, TER after every chain; residue names that are fragments of the water names, e.g. the nucleotides A and T).",
         note="records other than ATOM/HETATM/TER/END/MODEL modelled as no-ops; atom-name aliases not modelled (generator avoids two spellings of one atom); universal-newline decoding trusted",
         ref="DESIGN.md §4 C07",
     ),
